@@ -63,6 +63,24 @@ def spec_of(cfg):
     return s
 
 
+SBT_EXTRA = {'Reservoir Model': 8, 'Reservoir Depth': '2.4 kilometer', 'Gradient 1': 31.25, 'Reservoir Volume Option': 4, 'Reservoir Volume': 8136407202.64,
+             'Reservoir Heat Capacity': 1112, 'Reservoir Density': 2663, 'Reservoir Thermal Conductivity': 2.25,
+             'Lateral Endpoint Depth': '2.5 kilometer', 'Lateral Inclination Angle': 89, 'Junction Depth': '2.45 kilometer', 'Vertical Section Length': '2.4 kilometer',
+             'Number of Multilateral Sections': 2, 'SBT Accuracy Desired': 1, 'Lateral Spacing': 75, 'Discretization Length': 250,
+             'SBT Initial Timestep Count': 5, 'SBT Initial to Final Timestep Transition': 10000, 'SBT Final Timestep Count': 20,
+             'Is AGS': True, 'Well Geometry Configuration': 5, 'Number of Production Wells': 1, 'Number of Injection Wells': 1,
+             'Production Well Diameter': 8.5, 'Injection Well Diameter': 8.5, 'Nonvertical Wellbore Diameter': 0.216, 'Production Flow Rate per Well': 6,
+             'Reservoir Impedance': 1e-4, 'Multilaterals Cased': False, 'Ambient Temperature': 3, 'Surface Temperature': 3, 'Injection Temperature': 24,
+             'SBT Generate Wireframe Graphics': False, 'Power Plant Type': 2, 'End-Use Option': 1}
+
+
+def sbt_cfg(flags):
+    """closed-loop (SBT, EavorLoop geometry with the junction below the vertical section) configuration family: SBTEconomics.Calculate."""
+    cfg = c04.cfg_of('electricity', 2, 1, False)
+    cfg.update({'pt': 2, 'extra': dict(SBT_EXTRA), 'family': 'sbt', 'flags': flags})
+    return cfg
+
+
 def drive(cfg, vals, symbolic):
     base = {k: v for k, v in cfg.items() if k not in ('flags', 'harness')}
     pr = c04.prepared(base)
@@ -103,6 +121,10 @@ def obligations(cfg, m, v):
         out.append(('user per-well cost is the reported production-well cost', eq(e.cost_one_production_well.value, cp)))
         out.append(('injection-well cost = user figure if supplied else the production-well figure', eq(e.cost_one_injection_well.value, ci)))
         out.append(('wellfield cost = per-well costs x numbers of wells (user-cost route)', eq(e.Cwell.value, cp * nprod + ci * ninj)))
+    elif cfg.get('family') == 'sbt':
+        out.append(('SBT: wellfield cost = reported per-well costs x numbers of wells + reported lateral and junction sections (correlation route)',
+                    eq(e.Cwell.value, e.cost_one_production_well.value * nprod + e.cost_one_injection_well.value * ninj
+                       + e.cost_lateral_section.value + e.cost_to_junction_section.value)))
     else:
         ci_rep = e.cost_one_injection_well.value
         out.append(('wellfield cost = 1.05 x (reported per-well costs x numbers of wells + laterals) (correlation route)',
@@ -205,13 +227,20 @@ def units(tier, seed):
                 cfg = c04.cfg_of(kind, 1, 1, False)
                 cfg['flags'] = dict(zip(conc, pat))
                 us.append(cfg)
+    # the closed-loop family has its own copy of the roll-up (SBTEconomics.Calculate)
+    conc = [f for f in ALL_FLAGS if f not in QUICK_SYM]
+    for pat in ([[False] * len(conc)] if tier == 'quick' else [[False] * len(conc), [True] * len(conc), [i % 2 == 0 for i in range(len(conc))]]):
+        fl = dict(zip(conc, pat))
+        if tier == 'quick':
+            fl.update({'ccstimfixed.Valid': False, 'oamplantfixed.Valid': False})
+        us.append(sbt_cfg(fl))
     return us
 
 
 def run_unit(unit):
     cfg = {k: v for k, v in unit.items() if k != 'tier'}
     spec = spec_of(cfg)
-    log = harness.UnitLog(cfg)
+    log = harness.UnitLog({k: v for k, v in cfg.items() if k != 'extra'})
     c04.prepared({k: v for k, v in cfg.items() if k not in ('flags', 'harness')})
 
     def fn():
